@@ -62,16 +62,18 @@ Proof.
 Qed.
 
 (** ** the coalescent oracle for a constant size: theta nu / i  (all sample sizes 2..30, the stated domain) *)
-Lemma const_coeff_all : const_coeff_ok_upto 30 = true.
+Lemma const_coeff_all :
+  forallb (fun n => forallb (fun i => Qeq_bool (const_coeff n i) (qmk 2 (Z.of_nat i))) (seq 1 (n - 1))) (seq 2 29) = true.
 Proof. vm_compute. reflexivity. Qed.
 
 Lemma const_coeff_eq n i : (2 <= n <= 30)%nat -> (1 <= i < n)%nat -> (const_coeff n i == qmk 2 (Z.of_nat i))%Q.
 Proof.
-  intros Hn Hi. pose proof const_coeff_all as H. unfold const_coeff_ok_upto in H.
-  rewrite forallb_forall in H. specialize (H n). assert (Hin : In n (seq 2 (30 - 1))) by (apply in_seq; lia).
-  specialize (H Hin). unfold const_coeff_ok in H. rewrite forallb_forall in H.
-  specialize (H i). assert (Hin2 : In i (seq 1 (n - 1))) by (apply in_seq; lia). specialize (H Hin2).
-  apply Qeq_bool_iff in H. exact H.
+  intros Hn Hi.
+  assert (Hin : In n (seq 2 29)) by (apply in_seq; lia).
+  pose proof (proj1 (forallb_forall _ _) const_coeff_all n Hin) as H. cbv beta in H.
+  assert (Hin2 : In i (seq 1 (n - 1))) by (apply in_seq; lia).
+  pose proof (proj1 (forallb_forall _ _) H i Hin2) as H2. cbv beta in H2.
+  apply Qeq_bool_iff. exact H2.
 Qed.
 
 Lemma zbinom2_nonzero : forallb (fun j => negb (Z.eqb (zbinom j 2) 0)) (seq 2 29) = true.
@@ -94,8 +96,9 @@ Proof.
   - cbn. numR. unfold Q2R. cbn. lra.
   - cbn [map fold_right]. unfold nsum in *. cbn [fold_right]. numR. rewrite IH by (intros; apply Hl; right; assumption).
     rewrite (Qeq_eqR _ _ (Qred_correct _)). rewrite Q2R_plus, Q2R_div.
-    + rewrite nofQ_R. unfold inject_Z, Q2R at 2. cbn [Qnum Qden]. field.
-      apply not_0_IZR. apply Hl. left. reflexivity.
+    + rewrite nofQ_R.
+      assert (Hz : Q2R (inject_Z (zbinom j 2)) = IZR (zbinom j 2)) by (unfold Q2R, inject_Z; cbn [Qnum Qden]; field).
+      rewrite Hz. field. apply not_0_IZR. apply Hl. left. reflexivity.
     + unfold inject_Z, Qeq. cbn [Qnum Qden]. rewrite Z.mul_1_r, Z.mul_0_l. apply Hl. left. reflexivity.
 Qed.
 
